@@ -118,7 +118,7 @@ func differs(a, b obs) string {
 }
 
 func main() {
-	mode := flag.String("mode", "history", "plan|history|record")
+	mode := flag.String("mode", "history", "plan|history|record|interleave")
 	in := flag.String("in", "", "behaviours (mode plan)")
 	trace := flag.String("trace", "trace.ndjson", "output trace (mode record)")
 	out := flag.String("out", "summary.json", "summary output")
@@ -134,6 +134,8 @@ func main() {
 		runHistory(seed, *n, *par, sum)
 	case "record":
 		runRecord(*trace, seed, *n, *par, sum)
+	case "interleave":
+		runInterleave(seed, *n, max(2, min(*par, 3)), sum)
 	default:
 		tl.Fatal("bad mode")
 	}
